@@ -260,6 +260,19 @@ class SmallSetInterp {
     if (shells().live != 0) violation(P02, "end of case: %u element object(s) never destroyed", shells().live);
     if (aledger().outstanding != 0) violation(P06, "end of case: %u block(s) never handed back to the allocator", aledger().outstanding);
   }
+  FILE *transcript = 0;
+  int portability = 0;
+  void dump_state() {
+    for (int i = 0; i < K; ++i) {
+      fprintf(transcript, " s%d(size=%ld)[", i, static_cast<long>(s[i].c->size()));
+      std::vector<int> vals;
+      for (typename S::const_iterator it = s[i].c->begin(); it != s[i].c->end(); ++it) vals.push_back(val_of(*it));
+      std::sort(vals.begin(), vals.end(), s[i].m->key_comp());
+      for (size_t q = 0; q < vals.size(); ++q) fprintf(transcript, "%d,", vals[q]);
+      fprintf(transcript, "]");
+    }
+    fprintf(transcript, "\n");
+  }
   bool run(const Op *ops, size_t n) {
     case_begin();
     begin_case();
@@ -267,6 +280,10 @@ class SmallSetInterp {
       crash_area_op(static_cast<uint32_t>(k));
       step(ops[k]);
       ++ctx().ops;
+      if (transcript && !tainted()) {
+        fprintf(transcript, "op %d %d %d %d %d:", ops[k].code % kSmallSetNumOps, ops[k].a, ops[k].b, ops[k].c, ops[k].d);
+        dump_state();
+      }
     }
     if (!tainted())
       for (int i = 0; i < K; ++i) check_set(i, "end of case");
